@@ -4,7 +4,9 @@ import (
 	"fmt"
 	bcrpb "github.com/google/fhir/go/proto/google/fhir/proto/r4/core/resources/bundle_and_contained_resource_go_proto"
 	opb "github.com/google/fhir/go/proto/google/fhir/proto/r4/core/resources/observation_go_proto"
+	ppb "github.com/google/fhir/go/proto/google/fhir/proto/r4/core/resources/patient_go_proto"
 	"github.com/verily-src/fhirpath-go/fhirpath/compopts"
+	"google.golang.org/protobuf/proto"
 	"google.golang.org/protobuf/types/known/anypb"
 	"sort"
 	"strings"
@@ -441,6 +443,21 @@ func init() {
 							})
 						}
 						wrappers(res.ProtoReflect(), tn)
+					}
+				}},
+				{Name: "choice-alternatives", N: 1, Note: "every alternative of Extension.value[x] (50), Observation.value[x], Patient.deceased[x] / multipleBirth[x], UsageContext.value[x] as a raw choice wrapper: its type is that of the chosen value, `as` yields the chosen value", Run: func(_ int, r *core.Rec) {
+					for _, w := range []proto.Message{&dtpb.Extension_ValueX{}, &opb.Observation_ValueX{}, &ppb.Patient_DeceasedX{}, &ppb.Patient_MultipleBirthX{}, &dtpb.UsageContext_ValueX{}, &opb.Observation_Component_ValueX{}} {
+						od := w.ProtoReflect().Descriptor().Oneofs().ByName("choice")
+						for k := 0; k < od.Fields().Len(); k++ {
+							fd := od.Fields().Get(k)
+							c := w.ProtoReflect().New()
+							chosen := c.Mutable(fd).Message()
+							decl, ok := c12Declared(chosen.Descriptor())
+							if !ok {
+								continue
+							}
+							judge(r, subject{desc: fmt.Sprintf("%s with %s chosen [choice wrapper]", c.Descriptor().FullName(), fd.JSONName()), v: c.Interface(), declNS: "FHIR", decl: decl, identity: chosen.Interface(), class: "choice-wrapper-alternative"}, related(decl))
+						}
 					}
 				}},
 				{Name: "choice-rebinding", N: 2, Note: "one compiled `is` / `as` / where($this is T) per type x {default, Permissive}, evaluated over a sequence of Observations whose value[x] holds a different alternative each time (and components holding all of them): every result equals that of a freshly compiled expression on the same input", Run: func(i int, r *core.Rec) {
